@@ -8,7 +8,6 @@ import (
 	"encoding/binary"
 	"errors"
 	"net"
-	"strings"
 	"time"
 
 	"github.com/insomniacslk/dhcp/dhcpv4"
@@ -489,8 +488,8 @@ func (v6proto) Redecode(wire []byte) []byte {
 	return m.ToBytes()
 }
 
-func (v6proto) IsInUse(err error) bool {
-	return err != nil && strings.Contains(err.Error(), "already in use")
-}
+// nclient6 has no type for the refusal of a pending transaction id, and its wording is not
+// API: ccState.refused recognises it without reading the text.
+func (v6proto) IsInUse(err error) bool { return false }
 
 func (v6proto) IsNoResponse(err error) bool { return errors.Is(err, nclient6.ErrNoResponse) }
